@@ -12,7 +12,37 @@ namespace XotModel
 
 /-- What `C03_sound` establishes at every node. -/
 def SoundAt (v : Value) (ks : List Tree) : Prop :=
-  OrderedKids ks ∧ KindsOk v ks ∧ noAdjText ks = true
+  OrderedKids ks ∧ KindsOk v ks ∧ noAdjText ks = true ∧ UniqueKids ks
+
+/-! ### Attribute names / prefixes of a child list -/
+
+theorem attrNames_append (a b : List Tree) : attrNames (a ++ b) = attrNames a ++ attrNames b := by
+  simp [attrNames]
+
+theorem nsPrefixes_append (a b : List Tree) : nsPrefixes (a ++ b) = nsPrefixes a ++ nsPrefixes b := by
+  simp [nsPrefixes]
+
+theorem attrNames_reverse (l : List Tree) : attrNames l.reverse = (attrNames l).reverse := by
+  simp [attrNames, List.filterMap_reverse]
+
+theorem nsPrefixes_reverse (l : List Tree) : nsPrefixes l.reverse = (nsPrefixes l).reverse := by
+  simp [nsPrefixes, List.filterMap_reverse]
+
+theorem nodup_reverse' {l : List Nat} : l.reverse.Nodup ↔ l.Nodup := by
+  unfold List.Nodup
+  rw [List.pairwise_reverse]
+  constructor <;> intro h <;> exact h.imp (fun hab => fun e => hab e.symm)
+
+theorem uniqueKids_reverse {l : List Tree} (h : UniqueKids l) : UniqueKids l.reverse := by
+  unfold UniqueKids at h ⊢
+  rw [attrNames_reverse, nsPrefixes_reverse, nodup_reverse', nodup_reverse']
+  exact h
+
+/-- A normal node contributes neither an attribute name nor a prefix. -/
+theorem uniqueKids_cons_normal {k : Tree} {l : List Tree} (hph : k.value.phase = 2) (h : UniqueKids l) :
+    UniqueKids (k :: l) := by
+  unfold UniqueKids attrNames nsPrefixes at h ⊢
+  cases hv : k.value <;> simp_all [Value.phase, List.filterMap_cons]
 
 /-! ### `noAdjText` and reversal -/
 
@@ -43,6 +73,7 @@ def FrameOk (f : Frame) : Prop :=
   f.rkids.Pairwise (fun a b => b.value.phase ≤ a.value.phase) ∧
   KindsOk f.value f.rkids ∧
   noAdjText f.rkids = true ∧
+  UniqueKids f.rkids ∧
   ∀ k ∈ f.rkids, k.Forall SoundAt
 
 theorem kindsOk_reverse {v : Value} {ks : List Tree} (h : KindsOk v ks) : KindsOk v ks.reverse := by
@@ -50,10 +81,10 @@ theorem kindsOk_reverse {v : Value} {ks : List Tree} (h : KindsOk v ks) : KindsO
   refine ⟨fun hv => by simp [h1 hv], fun hv k hk => h2 hv k (by simpa using hk), fun k hk => h3 k (by simpa using hk)⟩
 
 theorem Frame.close_sound {f : Frame} (h : FrameOk f) : f.close.Forall SoundAt := by
-  obtain ⟨h1, h2, h3, h4⟩ := h
+  obtain ⟨h1, h2, h3, hu, h4⟩ := h
   unfold Frame.close
   rw [Tree.forall_node]
-  refine ⟨⟨?_, kindsOk_reverse h2, ?_⟩, fun k hk => h4 k (by simpa using hk)⟩
+  refine ⟨⟨?_, kindsOk_reverse h2, ?_, uniqueKids_reverse hu⟩, fun k hk => h4 k (by simpa using hk)⟩
   · unfold OrderedKids; rw [List.pairwise_reverse]; exact h1
   · rw [noAdjText_reverse]; exact h3
 
@@ -64,10 +95,10 @@ theorem FrameOk.cons_normal {f : Frame} {k : Tree} (h : FrameOk f)
     (hleaf : f.value.isLeafKind = false) (hph : k.value.phase = 2) (hdoc : k.value.isDocument = false)
     (hadj : k.value.isText = true → (f.rkids.head?.map (fun t => t.value.isText)).getD false = false)
     (hk : k.Forall SoundAt) : FrameOk { f with rkids := k :: f.rkids } := by
-  obtain ⟨h1, h2, h3, h4⟩ := h
+  obtain ⟨h1, h2, h3, hu, h4⟩ := h
   have hnormal : k.value.isNormal = true := by
     cases hv : k.value <;> simp_all [Value.phase, Value.isNormal, Value.category]
-  refine ⟨?_, ?_, ?_, ?_⟩
+  refine ⟨?_, ?_, ?_, uniqueKids_cons_normal hph hu, ?_⟩
   · simp only [List.pairwise_cons]
     exact ⟨fun b _ => by rw [hph]; exact phase_le_two _, h1⟩
   · obtain ⟨a, b, c⟩ := h2
@@ -95,7 +126,8 @@ theorem FrameOk.cons_normal {f : Frame} {k : Tree} (h : FrameOk f)
     · exact h4 x hx
 
 theorem soundAt_leaf (v : Value) : SoundAt v [] := by
-  refine ⟨List.Pairwise.nil, ⟨fun _ => rfl, fun _ k hk => by simp at hk, fun k hk => by simp at hk⟩, rfl⟩
+  refine ⟨List.Pairwise.nil, ⟨fun _ => rfl, fun _ k hk => by simp at hk, fun k hk => by simp at hk⟩, rfl,
+    ⟨List.nodup_nil, List.nodup_nil⟩⟩
 
 theorem forall_leaf (v : Value) : (Tree.node v []).Forall SoundAt := by
   rw [Tree.forall_node]; exact ⟨soundAt_leaf v, fun k hk => by simp at hk⟩
@@ -113,105 +145,133 @@ theorem ShapeOk.head_not_leaf : ∀ {fs : List Frame} {f : Frame}, ShapeOk (f ::
     cases hv : f.value <;> simp_all [Value.isElement, Value.isLeafKind]
 
 /-- Builder invariant (independent of interning tables, spans, namespace stack). -/
+def EbOk (eb : Option ElementBuilder) : Prop :=
+  ∀ e, eb = some e → (e.namespaces.map (fun d => d.1)).Nodup
+
+/-- Builder invariant (independent of interning tables, spans, namespace stack): the open
+    frames, and the prefixes collected for the start tag being read are pairwise different. -/
 def BuilderOk (b : Builder) : Prop :=
-  FrameOk b.cur ∧ (∀ p ∈ b.parents, FrameOk p) ∧ ShapeOk (b.cur :: b.parents)
+  FrameOk b.cur ∧ (∀ p ∈ b.parents, FrameOk p) ∧ ShapeOk (b.cur :: b.parents) ∧ EbOk b.eb
 
 theorem builderOk_new (env : Env) : BuilderOk (Builder.new env) := by
-  refine ⟨⟨List.Pairwise.nil, ⟨fun _ => rfl, fun _ k hk => by simp [Builder.new] at hk, fun k hk => by simp [Builder.new] at hk⟩, rfl, fun k hk => by simp [Builder.new] at hk⟩, fun p hp => by simp [Builder.new] at hp, ?_⟩
+  refine ⟨⟨List.Pairwise.nil, ⟨fun _ => rfl, fun _ k hk => by simp [Builder.new] at hk, fun k hk => by simp [Builder.new] at hk⟩, rfl, ⟨List.nodup_nil, List.nodup_nil⟩, fun k hk => by simp [Builder.new] at hk⟩, fun p hp => by simp [Builder.new] at hp, ?_, fun e he => by simp [Builder.new] at he⟩
   simp [Builder.new, ShapeOk]
 
 /-! ### Steps that add a node to the current frame -/
 
+theorem shape_congr {c c' : Frame} {ps : List Frame} (hv : c'.value = c.value) (hs : ShapeOk (c :: ps)) :
+    ShapeOk (c' :: ps) := by
+  cases ps with
+  | nil => simpa [ShapeOk, hv] using hs
+  | cons g gs => simpa [ShapeOk, hv] using hs
+
 theorem addText_ok {b : Builder} (content : Str) (h : BuilderOk b) : BuilderOk (b.addText content).1 := by
-  obtain ⟨hc, hp, hs⟩ := h
+  obtain ⟨hc, hp, hs, he⟩ := h
   unfold Builder.addText
   split
   · rename_i s ks more hr
-    refine ⟨?_, hp, ?_⟩
-    · obtain ⟨h1, h2, h3, h4⟩ := hc
-      rw [hr] at h1 h2 h3 h4
-      refine ⟨?_, ?_, ?_, ?_⟩
-      · simp only [List.pairwise_cons] at h1 ⊢
-        exact ⟨fun x hx => by simpa [Tree.value, Value.phase] using h1.1 x hx, h1.2⟩
-      · obtain ⟨a, c, d⟩ := h2
-        refine ⟨fun hv => by simpa using a hv, fun hv x hx => ?_, fun x hx => ?_⟩
-        · simp only [List.mem_cons] at hx
-          rcases hx with rfl | hx
-          · rfl
-          · exact c hv x (by simp [hx])
-        · simp only [List.mem_cons] at hx
-          rcases hx with rfl | hx
-          · rfl
-          · exact d x (by simp [hx])
-      · cases more with
-        | nil => simp [noAdjText]
-        | cons y rest => simpa [noAdjText, Tree.value, Value.isText] using h3
-      · intro x hx
-        simp only [List.mem_cons] at hx
+    refine ⟨?_, hp, shape_congr (c := b.cur) rfl hs, he⟩
+    obtain ⟨h1, h2, h3, hu, h4⟩ := hc
+    rw [hr] at h1 h2 h3 hu h4
+    refine ⟨?_, ?_, ?_, ?_, ?_⟩
+    · simp only [List.pairwise_cons] at h1 ⊢
+      exact ⟨fun x hx => by simpa [Tree.value, Value.phase] using h1.1 x hx, h1.2⟩
+    · obtain ⟨a, c, d⟩ := h2
+      refine ⟨fun hv => by simpa using a hv, fun hv x hx => ?_, fun x hx => ?_⟩
+      · simp only [List.mem_cons] at hx
         rcases hx with rfl | hx
-        · have := h4 (.node (.text s) ks) (by simp)
-          rw [Tree.forall_node] at this ⊢
-          obtain ⟨⟨o, k, n⟩, rest⟩ := this
-          exact ⟨⟨o, ⟨fun _ => k.1 rfl, fun _ => k.2.1 rfl, k.2.2⟩, n⟩, rest⟩
-        · exact h4 x (by simp [hx])
-    · cases hpar : b.parents with
-      | nil => rw [hpar] at hs; simpa [ShapeOk] using hs
-      | cons g gs => rw [hpar] at hs; simpa [ShapeOk] using hs
+        · rfl
+        · exact c hv x (by simp [hx])
+      · simp only [List.mem_cons] at hx
+        rcases hx with rfl | hx
+        · rfl
+        · exact d x (by simp [hx])
+    · cases more with
+      | nil => simp [noAdjText]
+      | cons y rest => simpa [noAdjText, Tree.value, Value.isText] using h3
+    · unfold UniqueKids attrNames nsPrefixes at hu ⊢
+      simpa [List.filterMap_cons, Tree.value] using hu
+    · intro x hx
+      simp only [List.mem_cons] at hx
+      rcases hx with rfl | hx
+      · have := h4 (.node (.text s) ks) (by simp)
+        rw [Tree.forall_node] at this ⊢
+        obtain ⟨⟨o, k, n, u⟩, rest⟩ := this
+        exact ⟨⟨o, ⟨fun _ => k.1 rfl, fun _ => k.2.1 rfl, k.2.2⟩, n, u⟩, rest⟩
+      · exact h4 x (by simp [hx])
   · rename_i hne
-    refine ⟨?_, hp, ?_⟩
-    · have := FrameOk.cons_normal (k := .node (.text content) []) hc hs.head_not_leaf rfl rfl ?_ (forall_leaf _)
-      · exact this
-      · intro _
-        cases hr : b.cur.rkids with
-        | nil => rfl
-        | cons y rest =>
-          simp only [List.head?_cons, Option.map_some, Option.getD_some]
-          cases hy : y with
-          | node v ks =>
-            cases v with
-            | text s => exact absurd (by rw [hr, hy]) (hne s ks rest)
-            | _ => rfl
-    · cases hpar : b.parents with
-      | nil => rw [hpar] at hs; simpa [ShapeOk] using hs
-      | cons g gs => rw [hpar] at hs; simpa [ShapeOk] using hs
+    refine ⟨?_, hp, shape_congr (c := b.cur) rfl hs, he⟩
+    have := FrameOk.cons_normal (k := .node (.text content) []) hc hs.head_not_leaf rfl rfl ?_ (forall_leaf _)
+    · exact this
+    · intro _
+      cases hr : b.cur.rkids with
+      | nil => rfl
+      | cons y rest =>
+        simp only [List.head?_cons, Option.map_some, Option.getD_some]
+        cases hy : y with
+        | node v ks =>
+          cases v with
+          | text s => exact absurd (by rw [hr, hy]) (hne s ks rest)
+          | _ => rfl
 
 theorem addLeaf_ok {b : Builder} (v : Value) (h : BuilderOk b) (hph : v.phase = 2)
     (hdoc : v.isDocument = false) (htext : v.isText = false) : BuilderOk (b.addLeaf v).1 := by
-  obtain ⟨hc, hp, hs⟩ := h
+  obtain ⟨hc, hp, hs, he⟩ := h
   unfold Builder.addLeaf
-  refine ⟨?_, hp, ?_⟩
-  · exact FrameOk.cons_normal (k := .node v []) hc hs.head_not_leaf hph hdoc
-      (fun ht => by simp [Tree.value, htext] at ht) (forall_leaf _)
-  · cases hpar : b.parents with
-    | nil => rw [hpar] at hs; simpa [ShapeOk] using hs
-    | cons g gs => rw [hpar] at hs; simpa [ShapeOk] using hs
+  refine ⟨?_, hp, shape_congr (c := b.cur) rfl hs, he⟩
+  exact FrameOk.cons_normal (k := .node v []) hc hs.head_not_leaf hph hdoc
+    (fun ht => by simp [Tree.value, htext] at ht) (forall_leaf _)
 
-/-- `BuilderOk` only looks at `cur` and `parents`. -/
-theorem builderOk_congr {b b' : Builder} (h : BuilderOk b) (hc : b'.cur = b.cur) (hp : b'.parents = b.parents) :
-    BuilderOk b' := by
+/-- `BuilderOk` only looks at `cur`, `parents` and `eb`. -/
+theorem builderOk_congr {b b' : Builder} (h : BuilderOk b) (hc : b'.cur = b.cur) (hp : b'.parents = b.parents)
+    (he : b'.eb = b.eb) : BuilderOk b' := by
   unfold BuilderOk at h ⊢
-  rw [hc, hp]; exact h
+  rw [hc, hp, he]; exact h
+
+theorem builderOk_setEb {b b' : Builder} (h : BuilderOk b) (hc : b'.cur = b.cur) (hp : b'.parents = b.parents)
+    (he : EbOk b'.eb) : BuilderOk b' := by
+  obtain ⟨h1, h2, h3, _⟩ := h
+  unfold BuilderOk
+  rw [hc, hp]; exact ⟨h1, h2, h3, he⟩
 
 /-! ### Opening an element -/
 
-/-- Children of a fresh element: attribute leaves in front of namespace leaves (last first). -/
-def AttrKids (rk : List Tree) : Prop :=
-  ∃ attrs nss : List Tree, rk = attrs ++ nss ∧
-    (∀ k ∈ attrs, ∃ n v, k = .node (.attribute n v) []) ∧
-    (∀ k ∈ nss, ∃ p n, k = .node (.namespace p n) [])
+/-- Children of a fresh element: attribute leaves (names `names`, in order of appearance) in
+    front of the namespace leaves for `decls` (all last first). -/
+def AttrKids (rk : List Tree) (names : List Nat) (decls : List (Nat × Nat)) : Prop :=
+  ∃ attrs : List Tree, rk = attrs ++ namespaceKids decls ∧
+    (∀ k ∈ attrs, ∃ n v, k = .node (.attribute n v) []) ∧ attrNames attrs = names.reverse
 
-theorem attrKids_namespaceKids (decls : List (Nat × Nat)) : AttrKids (namespaceKids decls) := by
-  refine ⟨[], namespaceKids decls, rfl, fun k hk => by simp at hk, fun k hk => ?_⟩
-  simp only [namespaceKids, List.mem_reverse, List.mem_map] at hk
-  obtain ⟨d, _, rfl⟩ := hk
-  exact ⟨d.1, d.2, rfl⟩
+theorem attrKids_namespaceKids (decls : List (Nat × Nat)) : AttrKids (namespaceKids decls) [] decls :=
+  ⟨[], rfl, fun k hk => by simp at hk, rfl⟩
 
-theorem addAttributes_attrKids (stack : NsStack) (node : Path) (abs : List AttributeBuilder) :
-    ∀ (st st' : AttrLoop), AttrKids st.rkids → addAttributes stack node st abs = .ok st' → AttrKids st'.rkids := by
+theorem namespaceKids_spec (decls : List (Nat × Nat)) :
+    (∀ k ∈ namespaceKids decls, ∃ p n, k = .node (.namespace p n) []) ∧
+    attrNames (namespaceKids decls) = [] ∧
+    nsPrefixes (namespaceKids decls) = (decls.map (fun d => d.1)).reverse := by
+  refine ⟨fun k hk => ?_, ?_, ?_⟩
+  · simp only [namespaceKids, List.mem_reverse, List.mem_map] at hk
+    obtain ⟨d, _, rfl⟩ := hk
+    exact ⟨d.1, d.2, rfl⟩
+  · induction decls with
+    | nil => rfl
+    | cons d ds ih =>
+      simp only [namespaceKids, List.map_cons, List.reverse_cons] at ih ⊢
+      rw [attrNames_append, ih]; rfl
+  · induction decls with
+    | nil => rfl
+    | cons d ds ih =>
+      simp only [namespaceKids, List.map_cons, List.reverse_cons] at ih ⊢
+      rw [nsPrefixes_append, ih]; rfl
+
+theorem addAttributes_attrKids (stack : NsStack) (node : Path) (decls : List (Nat × Nat))
+    (abs : List AttributeBuilder) :
+    ∀ (st st' : AttrLoop), AttrKids st.rkids st.seenNames decls → st.seenNames.Nodup →
+      addAttributes stack node st abs = .ok st' → AttrKids st'.rkids st'.seenNames decls ∧ st'.seenNames.Nodup := by
   induction abs with
-  | nil => intro st st' h hr; simp only [addAttributes, Step.ok.injEq] at hr; subst hr; exact h
+  | nil => intro st st' h hn hr; simp only [addAttributes, Step.ok.injEq] at hr; subst hr; exact ⟨h, hn⟩
   | cons ab rest ih =>
-    intro st st' h hr
+    intro st st' h hn hr
     simp only [addAttributes] at hr
     split at hr
     · cases hr
@@ -219,23 +279,47 @@ theorem addAttributes_attrKids (stack : NsStack) (node : Path) (abs : List Attri
     · rename_i env1 nameId _
       split at hr
       · cases hr
-      · refine ih _ st' ?_ hr
-        obtain ⟨attrs, nss, he, ha, hn⟩ := h
-        refine ⟨.node (.attribute nameId ab.value) [] :: attrs, nss, by simp [he], fun k hk => ?_, hn⟩
-        simp only [List.mem_cons] at hk
-        rcases hk with rfl | hk
-        · exact ⟨_, _, rfl⟩
-        · exact ha k hk
+      · rename_i hnew
+        split at hr
+        · cases hr
+        · refine ih _ st' ?_ ?_ hr
+          · obtain ⟨attrs, he, ha, hnames⟩ := h
+            refine ⟨.node (.attribute nameId ab.value) [] :: attrs, by simp [he], fun k hk => ?_, ?_⟩
+            · simp only [List.mem_cons] at hk
+              rcases hk with rfl | hk
+              · exact ⟨_, _, rfl⟩
+              · exact ha k hk
+            · simp [attrNames, List.filterMap_cons, Tree.value] at hnames ⊢
+              exact hnames
+          · simp only
+            rw [List.nodup_append]
+            refine ⟨hn, by simp, ?_⟩
+            intro a ha b hb
+            simp only [List.mem_singleton] at hb
+            subst hb
+            intro hab; subst hab
+            exact hnew (by simpa using ha)
 
-theorem frameOk_of_attrKids {name : Nat} {rk : List Tree} (h : AttrKids rk) : FrameOk ⟨.element name, rk⟩ := by
-  obtain ⟨attrs, nss, rfl, ha, hn⟩ := h
-  have hph : ∀ k ∈ attrs ++ nss, k.value.phase ≤ 1 ∧ k.value.isDocument = false ∧ k.value.isText = false ∧ k.Forall SoundAt := by
+theorem frameOk_of_attrKids {name : Nat} {rk : List Tree} {names : List Nat} {decls : List (Nat × Nat)}
+    (h : AttrKids rk names decls) (hn : names.Nodup) (hd : (decls.map (fun d => d.1)).Nodup) :
+    FrameOk ⟨.element name, rk⟩ := by
+  obtain ⟨attrs, rfl, ha, hnames⟩ := h
+  obtain ⟨hns, hns1, hns2⟩ := namespaceKids_spec decls
+  have hattr_ns : nsPrefixes attrs = [] := by
+    clear hnames
+    induction attrs with
+    | nil => rfl
+    | cons x xs ih =>
+      obtain ⟨n, v, rfl⟩ := ha x (by simp)
+      simp only [nsPrefixes, List.filterMap_cons, Tree.value]
+      exact ih (fun k hk => ha k (by simp [hk]))
+  have hph : ∀ k ∈ attrs ++ namespaceKids decls, k.value.phase ≤ 1 ∧ k.value.isDocument = false ∧ k.value.isText = false ∧ k.Forall SoundAt := by
     intro k hk
     simp only [List.mem_append] at hk
     rcases hk with hk | hk
     · obtain ⟨n, v, rfl⟩ := ha k hk; exact ⟨by simp [Tree.value, Value.phase], rfl, rfl, forall_leaf _⟩
-    · obtain ⟨p, n, rfl⟩ := hn k hk; exact ⟨by simp [Tree.value, Value.phase], rfl, rfl, forall_leaf _⟩
-  refine ⟨?_, ⟨fun hv => by simp [Value.isLeafKind] at hv, fun hv => by simp [Value.isElement] at hv, fun k hk => (hph k hk).2.1⟩, ?_, fun k hk => (hph k hk).2.2.2⟩
+    · obtain ⟨p, n, rfl⟩ := hns k hk; exact ⟨by simp [Tree.value, Value.phase], rfl, rfl, forall_leaf _⟩
+  refine ⟨?_, ⟨fun hv => by simp [Value.isLeafKind] at hv, fun hv => by simp [Value.isElement] at hv, fun k hk => (hph k hk).2.1⟩, ?_, ?_, fun k hk => (hph k hk).2.2.2⟩
   · rw [List.pairwise_append]
     refine ⟨?_, ?_, ?_⟩
     · refine List.Pairwise.imp_of_mem (R := fun _ _ => True) ?_ (List.pairwise_of_forall (fun _ _ => trivial))
@@ -245,12 +329,12 @@ theorem frameOk_of_attrKids {name : Nat} {rk : List Tree} (h : AttrKids rk) : Fr
       simp [Tree.value, Value.phase]
     · refine List.Pairwise.imp_of_mem (R := fun _ _ => True) ?_ (List.pairwise_of_forall (fun _ _ => trivial))
       intro a b ha' hb' _
-      obtain ⟨n, v, rfl⟩ := hn a ha'
-      obtain ⟨n', v', rfl⟩ := hn b hb'
+      obtain ⟨n, v, rfl⟩ := hns a ha'
+      obtain ⟨n', v', rfl⟩ := hns b hb'
       simp [Tree.value, Value.phase]
     · intro a ha' b hb'
       obtain ⟨n, v, rfl⟩ := ha a ha'
-      obtain ⟨n', v', rfl⟩ := hn b hb'
+      obtain ⟨n', v', rfl⟩ := hns b hb'
       simp [Tree.value, Value.phase]
   · -- no text at all
     have : ∀ l : List Tree, (∀ k ∈ l, k.value.isText = false) → noAdjText l = true := by
@@ -265,13 +349,17 @@ theorem frameOk_of_attrKids {name : Nat} {rk : List Tree} (h : AttrKids rk) : Fr
           simp only [noAdjText, hx x (by simp), Bool.false_and, Bool.not_false, Bool.true_and]
           exact ih (fun k hk => hx k (by simp [hk]))
     exact this _ (fun k hk => (hph k hk).2.2.1)
+  · unfold UniqueKids
+    rw [attrNames_append, nsPrefixes_append, hnames, hns1, hns2, hattr_ns]
+    simp only [List.append_nil, List.nil_append, nodup_reverse']
+    exact ⟨hn, hd⟩
 
 theorem openElement_ok {b b' : Builder} (h : BuilderOk b) (hr : b.openElement = .ok b') : BuilderOk b' := by
-  obtain ⟨hc, hp, hs⟩ := h
+  obtain ⟨hc, hp, hs, he⟩ := h
   unfold Builder.openElement at hr
   split at hr
   · cases hr
-  · rename_i eb _
+  · rename_i eb heb
     dsimp only at hr
     split at hr
     · cases hr
@@ -283,19 +371,19 @@ theorem openElement_ok {b b' : Builder} (h : BuilderOk b) (hr : b.openElement = 
       · rename_i st hst
         simp only [Step.ok.injEq] at hr
         subst hr
-        have hk := addAttributes_attrKids _ _ _ _ st (attrKids_namespaceKids eb.namespaces) hst
-        refine ⟨frameOk_of_attrKids hk, ?_, ?_⟩
-        · intro p hp'
-          simp only [List.mem_cons] at hp'
-          rcases hp' with rfl | hp'
-          · exact hc
-          · exact hp p hp'
-        · exact ⟨rfl, hs⟩
+        obtain ⟨hk, hn⟩ := addAttributes_attrKids _ _ eb.namespaces _ _ st
+          (attrKids_namespaceKids eb.namespaces) List.nodup_nil hst
+        refine ⟨frameOk_of_attrKids hk hn (he eb heb), ?_, ⟨rfl, hs⟩, fun e h => by simp at h⟩
+        intro p hp'
+        simp only [List.mem_cons] at hp'
+        rcases hp' with rfl | hp'
+        · exact hc
+        · exact hp p hp'
 
 /-! ### Closing an element -/
 
 theorem toParent_ok {b b' : Builder} (h : BuilderOk b) (hr : b.toParent = .ok b') : BuilderOk b' := by
-  obtain ⟨hc, hp, hs⟩ := h
+  obtain ⟨hc, hp, hs, he⟩ := h
   unfold Builder.toParent at hr
   split at hr
   · cases hr
@@ -306,36 +394,31 @@ theorem toParent_ok {b b' : Builder} (h : BuilderOk b) (hr : b.toParent = .ok b'
     have hcur : b.cur.value.isElement = true := by
       simp only [ShapeOk] at hs; exact hs.1
     have hshape : ShapeOk (p :: rest) := by simp only [ShapeOk] at hs; exact hs.2
-    refine ⟨?_, fun q hq => hp q (by simp [hq]), ?_⟩
-    · have hcv : b.cur.close.value = b.cur.value := rfl
-      refine FrameOk.cons_normal (k := b.cur.close) (hp p (by simp)) hshape.head_not_leaf ?_ ?_ ?_ (Frame.close_sound hc)
-      · rw [hcv]; cases hv : b.cur.value <;> simp_all [Value.isElement, Value.phase]
-      · rw [hcv]; cases hv : b.cur.value <;> simp_all [Value.isElement, Value.isDocument]
-      · rw [hcv]; intro ht; cases hv : b.cur.value <;> simp_all [Value.isElement, Value.isText]
-    · cases rest with
-      | nil => simpa [ShapeOk] using hshape
-      | cons g gs => simpa [ShapeOk] using hshape
+    refine ⟨?_, fun q hq => hp q (by simp [hq]), shape_congr (c := p) rfl hshape, he⟩
+    have hcv : b.cur.close.value = b.cur.value := rfl
+    refine FrameOk.cons_normal (k := b.cur.close) (hp p (by simp)) hshape.head_not_leaf ?_ ?_ ?_ (Frame.close_sound hc)
+    · rw [hcv]; cases hv : b.cur.value <;> simp_all [Value.isElement, Value.phase]
+    · rw [hcv]; cases hv : b.cur.value <;> simp_all [Value.isElement, Value.isDocument]
+    · rw [hcv]; intro ht; cases hv : b.cur.value <;> simp_all [Value.isElement, Value.isText]
 
 theorem leave_ok {b b' : Builder} (node : Path) (sp : StrSpan) (h : BuilderOk b)
     (hr : b.leave node sp = .ok b') : BuilderOk b' := by
   unfold Builder.leave at hr
-  split at hr
-  · rename_i b2 h2
+  cases hb : b.toParent with
+  | ok b2 =>
+    rw [hb] at hr
     simp only [Step.ok.injEq] at hr
     subst hr
-    exact builderOk_congr (toParent_ok h h2) rfl rfl
-  · rename_i r hne
-    cases hb : b.toParent with
-    | ok b2 => exact absurd hb (hne b2)
-    | err e env => rw [hb] at hr; cases hr
-    | panic => rw [hb] at hr; cases hr
+    exact builderOk_congr (toParent_ok h hb) rfl rfl rfl
+  | err e env => rw [hb] at hr; cases hr
+  | panic => rw [hb] at hr; cases hr
 
 theorem closeImmediate_ok {b b' : Builder} (sp : StrSpan) (h : BuilderOk b)
     (hr : b.closeImmediate sp = .ok b') : BuilderOk b' := by
   unfold Builder.closeImmediate at hr
   refine leave_ok _ _ ?_ hr
   split
-  · exact builderOk_congr h rfl rfl
+  · exact builderOk_congr h rfl rfl rfl
   · exact h
 
 theorem closeElement_ok {b b' : Builder} (pfx loc sp : StrSpan) (h : BuilderOk b)
@@ -345,75 +428,112 @@ theorem closeElement_ok {b b' : Builder} (pfx loc sp : StrSpan) (h : BuilderOk b
   · cases hr
   · cases hr
   · split at hr
+    · cases hr
     · split at hr
-      · cases hr
+      · split at hr
+        · cases hr
+        · refine leave_ok _ _ ?_ hr
+          exact builderOk_congr h rfl rfl rfl
       · refine leave_ok _ _ ?_ hr
-        exact builderOk_congr h rfl rfl
-    · refine leave_ok _ _ ?_ hr
-      exact builderOk_congr h rfl rfl
+        exact builderOk_congr h rfl rfl rfl
 
 /-! ### The token loop -/
+
+theorem prefix_ok {b b' : Builder} (p : Str) (u : StrSpan) (sp : Span) (h : BuilderOk b)
+    (hr : b.prefix p u sp = .ok b') : BuilderOk b' := by
+  unfold Builder.prefix at hr
+  split at hr
+  · cases hr
+  · dsimp only at hr
+    split at hr
+    · cases hr
+    · rename_i eb heb
+      split at hr
+      · cases hr
+      · rename_i hnew
+        simp only [Step.ok.injEq] at hr
+        subst hr
+        refine builderOk_setEb h rfl rfl ?_
+        intro e he
+        simp only [Option.some.injEq] at he
+        subst he
+        simp only [List.map_append, List.map_cons, List.map_nil]
+        rw [List.nodup_append]
+        refine ⟨h.2.2.2 eb heb, by simp, ?_⟩
+        intro a ha c hc
+        simp only [List.mem_singleton] at hc
+        subst hc
+        intro hac
+        apply hnew
+        simp only [List.mem_map] at ha
+        obtain ⟨d, hd, hda⟩ := ha
+        rw [List.any_eq_true]
+        exact ⟨d, hd, by simp [hda, hac]⟩
 
 theorem step_ok {b b' : Builder} (t : Token) (h : BuilderOk b) (hr : b.step t = .ok b') : BuilderOk b' := by
   cases t with
   | «attribute» pfx loc value sp =>
     simp only [Builder.step] at hr
-    have hprefix : ∀ p u, b.prefix p u = .ok b' → BuilderOk b' := by
-      intro p u hr
-      unfold Builder.prefix at hr
-      split at hr
-      · cases hr
-      · simp only [Step.ok.injEq] at hr; subst hr; exact builderOk_congr h rfl rfl
     split at hr
-    · exact hprefix _ _ hr
+    · exact prefix_ok _ _ _ h hr
     · split at hr
-      · exact hprefix _ _ hr
+      · exact prefix_ok _ _ _ h hr
       · unfold Builder.attribute at hr
         split at hr
         · cases hr
-        · split at hr
+        · rename_i eb heb
+          split at hr
           · cases hr
           · split at hr
             · cases hr
-            · simp only [Step.ok.injEq] at hr; subst hr; exact builderOk_congr h rfl rfl
+            · simp only [Step.ok.injEq] at hr; subst hr
+              refine builderOk_setEb h rfl rfl ?_
+              intro e he
+              simp only [Option.some.injEq] at he
+              subst he
+              exact h.2.2.2 eb heb
   | text t =>
     simp only [Builder.step, Builder.text] at hr
     split at hr
     · cases hr
     · simp only [Step.ok.injEq] at hr; subst hr
-      exact builderOk_congr (addText_ok _ h) rfl rfl
+      refine builderOk_congr (addText_ok _ h) rfl rfl ?_
+      unfold Builder.addText; split <;> rfl
   | cdata t sp =>
-    simp only [Builder.step, Builder.cdata, Step.ok.injEq] at hr
-    subst hr
-    exact builderOk_congr (addText_ok _ h) rfl rfl
+    simp only [Builder.step, Builder.cdata] at hr
+    split at hr
+    · simp only [Step.ok.injEq] at hr; subst hr; exact h
+    · simp only [Step.ok.injEq] at hr; subst hr
+      refine builderOk_congr (addText_ok _ h) rfl rfl ?_
+      unfold Builder.addText; split <;> rfl
   | elementStart pfx loc sp =>
     simp only [Builder.step, Builder.element, Step.ok.injEq] at hr
     subst hr
-    exact builderOk_congr h rfl rfl
+    refine builderOk_setEb h rfl rfl ?_
+    intro e he
+    simp only [Option.some.injEq] at he
+    subst he
+    simp [ElementBuilder.new]
   | elementEnd e sp =>
     cases e with
     | «open» => exact openElement_ok h hr
     | close pfx loc => exact closeElement_ok pfx loc sp h hr
     | empty =>
       simp only [Builder.step] at hr
-      split at hr
-      · rename_i b1 h1
-        exact closeImmediate_ok sp (openElement_ok h h1) hr
-      · rename_i r hne
-        cases hb : b.openElement with
-        | ok b2 => exact absurd hb (hne b2)
-        | err e env => rw [hb] at hr; cases hr
-        | panic => rw [hb] at hr; cases hr
+      cases hb : b.openElement with
+      | ok b1 => rw [hb] at hr; exact closeImmediate_ok sp (openElement_ok h hb) hr
+      | err e env => rw [hb] at hr; cases hr
+      | panic => rw [hb] at hr; cases hr
   | comment t sp =>
     simp only [Builder.step, Builder.comment, Step.ok.injEq] at hr
     subst hr
-    exact builderOk_congr (addLeaf_ok (.comment t.text) h rfl rfl rfl) rfl rfl
+    exact builderOk_congr (addLeaf_ok (.comment t.text) h rfl rfl rfl) rfl rfl rfl
   | pi target content sp =>
     simp only [Builder.step, Builder.processingInstruction, Step.ok.injEq] at hr
     subst hr
     refine builderOk_congr (addLeaf_ok (b := { b with env := (b.env.internName target.text Env.noNamespace).1 })
       (.pi (b.env.internName target.text Env.noNamespace).2 (content.map fun c => c.text))
-      (builderOk_congr h rfl rfl) rfl rfl rfl) rfl rfl
+      (builderOk_congr h rfl rfl rfl) rfl rfl rfl) rfl rfl rfl
   | declaration v e s sp =>
     simp only [Builder.step] at hr
     split at hr
@@ -430,19 +550,19 @@ theorem run_ok (ts : List Token) (lexErr : Option Nat) :
   | nil =>
     intro b b' h hr
     cases lexErr with
-    | none => simp only [Builder.run, Step.ok.injEq] at hr; subst hr; exact h
+    | none =>
+      simp only [Builder.run] at hr
+      split at hr
+      · cases hr
+      · simp only [Step.ok.injEq] at hr; subst hr; exact h
     | some p => simp [Builder.run] at hr
   | cons t ts ih =>
     intro b b' h hr
     simp only [Builder.run] at hr
-    split at hr
-    · rename_i b1 h1
-      exact ih (step_ok t h h1) hr
-    · rename_i r hne
-      cases hb : b.step t with
-      | ok b2 => exact absurd hb (hne b2)
-      | err e env => rw [hb] at hr; cases hr
-      | panic => rw [hb] at hr; cases hr
+    cases hb : b.step t with
+    | ok b1 => rw [hb] at hr; exact ih (step_ok t h hb) hr
+    | err e env => rw [hb] at hr; cases hr
+    | panic => rw [hb] at hr; cases hr
 
 /-! ### The finished tree -/
 
@@ -475,7 +595,7 @@ theorem zipInto_sound : ∀ (parents : List Frame) (t : Tree), t.Forall SoundAt 
 
 theorem root_sound {b : Builder} (h : BuilderOk b) :
     b.root.Forall SoundAt ∧ b.root.value = .document := by
-  obtain ⟨hc, hp, hs⟩ := h
+  obtain ⟨hc, hp, hs, _⟩ := h
   unfold Builder.root
   refine zipInto_sound b.parents b.cur.close (Frame.close_sound hc) hp ?_ ?_
   · intro hnil; rw [hnil] at hs; simpa [ShapeOk, Frame.close, Tree.value] using hs
